@@ -1270,6 +1270,14 @@ func execAnotherModule(vm *r.VM, libInfo r.LibNameInfo) (*r.Module, error) {
 			return nil, WrapRuntimeError(vm, err)
 		}
 
+		// the module's blocks have ended and its names are gone: keep its methods and types
+		// in its own scope, so that an imported method can still use them when it is called
+		for name, val := range module.GetAllExportValues() {
+			if err := vm.DeclareConstElement(r.NewIDName(name), val); err != nil {
+				return nil, WrapRuntimeError(vm, err)
+			}
+		}
+
 		vm.PopCallFrame()
 		return module, nil
 	}
